@@ -10,11 +10,11 @@ ID = "C11"
 GENERATORS = [gen_authz.generate]
 LEAN_MODULES = ["FimVerif.Proofs.C11"]
 P = "FimVerif.C11."
-THEOREMS_PLAN = [P + t for t in (
-    "collect_spec", "complete", "perm_invariant", "keys_perm_invariant", "sound",
-    "pdp_request_wellformed", "pdp_total", "table_total", "ids_injective",
+THEOREMS = [P + t for t in (
+    "collect_spec", "complete", "complete_named", "sound", "perm_invariant", "keys_exact", "keys_perm_invariant",
+    "table_total", "ids_injective", "pdp_total", "pdp_request_wellformed", "pdp_no_extra",
+    "collected_keys", "collected_in_resource_category",
     "log_counts", "log_perm_invariant", "legacy_mirror_counterexample")]
-THEOREMS = [P + "table_total"]
 TRUSTED_BASE = [
     "gen/authz.py: AST patterns for the attribute-id constants, ATTRIBUTE_TYPES_AND_CATEGORIES, NSTYPE_LUT, the literals "
     "'sliver'/'switch-p4'/'UNKNOWN-SITE', the service-type set and exemption type of _collect_attributes_from_ns_sliver, "
@@ -39,6 +39,7 @@ RULE = ("slices of 0..7 nodes/services/facilities over 3 sites with several Port
         "dispatch, and through real ExperimentTopology objects (several creation orders) and their serialised ASM; "
         "non-trivial = >= 2 services needing a site attribute; distinct by (canonical slice in stored order, entry point)")
 
+RESOURCE_CATEGORY = "urn:oasis:names:tc:xacml:3.0:attribute-category:resource"
 SITES = ["A", "B", "C"]
 PORTS = ["p1", "p2", "p3", "q1", "q2"]
 LISTED = ["PortMirror", "FABNetv4Ext", "FABNetv6Ext"]
@@ -184,6 +185,41 @@ def impl_log(sl, entry="fold"):
     except Exception as e:
         return ["err", err_kind(e)]
     return _log_reply(lc)
+
+
+FIX_COMMIT = "a372b34"
+_LEGACY = []
+
+
+def legacy_class():
+    """ResourceAuthZAttributes as it was before the repair, loaded from the parent of the fix commit (None if that object
+    is not in the repository any more). Ties Model/Authz.lean `collectLegacy` (theorem legacy_mirror_counterexample)."""
+    if not _LEGACY:
+        import subprocess
+        import types
+        from core import REPO
+        cls = None
+        try:
+            p = subprocess.run(["git", "-C", REPO, "show", FIX_COMMIT + "~1:fim/authz/attribute_collector.py"],
+                               capture_output=True, text=True, timeout=30)
+            if p.returncode == 0 and "self._attributes[resource_name].pop()" in p.stdout:
+                m = types.ModuleType("c11_legacy_attribute_collector")
+                exec(compile(p.stdout, "attribute_collector@%s~1" % FIX_COMMIT, "exec"), m.__dict__)
+                cls = m.ResourceAuthZAttributes
+        except Exception:
+            cls = None
+        _LEGACY.append(cls)
+    return _LEGACY[0]
+
+
+def impl_authz_legacy(sl):
+    az = legacy_class()()
+    try:
+        az._collect_attributes_from_topo(_Topo(sl))
+    except Exception as e:
+        return ["err", err_kind(e)]
+    r = _authz_reply(az)
+    return r[0] if isinstance(r, tuple) else r
 
 
 def for_dispatch(sl):
@@ -573,6 +609,7 @@ def check_authz(sl, reply, pdp_dict, pdp_json, res, case, entry):
         bad("raises:" + reply[1], "collecting attributes / building the PDP request raised (%s)" % entry)
         return
     attrs = dict((k, v) for k, v in reply[1]["attrs"])
+    slice_keys = set(required(sl)) | {R.RESOURCE_TYPE}
     for k, vs in required(sl).items():
         for v, why in vs:
             if v not in attrs.get(k, []):
@@ -590,6 +627,8 @@ def check_authz(sl, reply, pdp_dict, pdp_json, res, case, entry):
             continue
         cat, a = hits[0]
         exp = R.ATTRIBUTE_TYPES_AND_CATEGORIES[k]
+        if (entry != "full-request" or k in slice_keys) and cat != RESOURCE_CATEGORY:
+            bad("pdp:category:" + _short(k), "an attribute describing the slice is not emitted in the resource category", observed=cat)
         if cat != exp[1] or a["DataType"] != exp[0] or a["Value"] != v or a["IncludeInResult"] is not False:
             bad("pdp:row:" + _short(k), "attribute is in the wrong category / has wrong type or values", observed=[cat, a])
         xs = "integer" in exp[0]
@@ -770,7 +809,7 @@ def topo_runs(ctx, n=None, k=None):
     key = (n, k)
     cache = ctx.__dict__.setdefault("_c11_topo", {})
     if key not in cache:
-        tcases, trng = _tcases(ctx, "topo", n or ctx.scale(10, 100))
+        tcases, trng = _tcases(ctx, "topo", n or ctx.scale(24, 130))
         cache[key] = [(ts, run_tspec(ts, trng, k or ctx.scale(3, 4))) for ts in tcases]
     return cache[key]
 
@@ -794,10 +833,26 @@ def _tcases(ctx, tag, n):
     return out, rng
 
 
+def _unordered_components(reply):
+    if reply[0] != "ok":
+        return reply
+    d = json.loads(canon(reply[1]))
+    if "components" in d:
+        d["components"] = sorted(d["components"])
+    for kv in d.get("attrs", []):
+        if kv[0].endswith("resource-component"):
+            kv[1].sort()
+    for c in d.get("pdp", []):
+        for a in c[1]:
+            if a[0].endswith("resource-component"):
+                a[2].sort()
+    return [reply[0], d]
+
+
 def correspondence(ctx, res):
     from core import Result
     scratch = Result()
-    cases, rng = _cases(ctx, "corr", ctx.scale(150, 1500))
+    cases, rng = _cases(ctx, "corr", ctx.scale(150, 1000))
     reqs, impl = [], []
     for sl in cases:
         for entry in ("fold", "dispatch"):
@@ -808,6 +863,14 @@ def correspondence(ctx, res):
                 reqs.append(["authz", q]); impl.append(a)
                 reqs.append(["log", q]); impl.append(impl_log(q, entry))
                 res.count("entry:" + entry, 2)
+    if legacy_class() is not None:
+        for sl in cases[:ctx.scale(60, 400)]:
+            for p in permutations_of(sl, rng, 6):
+                reqs.append(["authz-legacy", p]); impl.append(impl_authz_legacy(p))
+                res.count("entry:legacy-fold")
+    else:
+        ctx.notes.append("pre-repair collector not available from git; collectLegacy not compared")
+    n_exact = len(reqs)
     for ts, runs in topo_runs(ctx):
         for run in runs:
             if "out" not in run:
@@ -822,13 +885,13 @@ def correspondence(ctx, res):
             res.count("entry:topology", 2)
             res.count("entry:asm", 2)
     model = LeanDriver("C11").run([json.dumps(r) for r in reqs])
-    for r, i, m in zip(reqs, impl, model):
+    for idx, (r, i, m) in enumerate(zip(reqs, impl, model)):
         res.evaluations += 1
         res.count("op:" + r[0])
         if i[0] == "err":
             res.count("err:" + i[1])
         else:
-            if r[0] == "authz":
+            if r[0].startswith("authz"):
                 for k, _ in i[1]["attrs"]:
                     res.count("attr:" + _short(k))
         if nontrivial(r[1]):
@@ -837,6 +900,10 @@ def correspondence(ctx, res):
         if r[0] == "log" and i[0] == "ok" and mm[0] == "ok":
             # sets come back sorted from both sides already
             pass
+        if idx >= n_exact:
+            # real topologies: the order of a node's components inside its sliver is the graph's neighbour order
+            # (topology API, not the collectors) - compare the component values as a multiset
+            i, mm = _unordered_components(i), _unordered_components(mm)
         if json.loads(canon(mm)) != json.loads(canon(i)):
             res.disagreements.append({"case": r, "impl": i, "model": mm})
     if reqs:
@@ -844,12 +911,38 @@ def correspondence(ctx, res):
         res.sample({"request": reqs[-2], "impl": impl[-2], "model": json.loads(model[-2])})
 
 
+def full_request(res):
+    """One request with every setter used (lifetime, subject, action, resource subject/project) on top of a collected
+    slice: every attribute the class can emit goes through transform_to_pdp_request."""
+    from datetime import datetime, timedelta, timezone
+    from fim.authz.attribute_collector import ResourceAuthZAttributes
+    sl = corner_slices()[3]
+    case = {"kind": "slice", "entry": "full-request", "slice": sl}
+    az = ResourceAuthZAttributes()
+    try:
+        az._collect_attributes_from_topo(_Topo(sl))
+        az.set_lifetime(datetime.now(timezone.utc) + timedelta(days=13, hours=11, minutes=7, seconds=4, milliseconds=10))
+        az.set_subject_attributes(subject_id="user@example.org", project=["Project1"], project_tag=["Tag1", "Tag2"])
+        az.set_action("create")
+        az.set_resource_subject_and_project(subject_id="user@example.org", project="Project1")
+        r = _authz_reply(az)
+    except Exception as e:
+        res.violation("C11:raises:" + err_kind(e), "building a full request raised %s" % type(e).__name__, case)
+        return
+    res.evaluations += 1
+    if isinstance(r, tuple):
+        check_authz(sl, r[0], r[1], r[2], res, case, "full-request")
+    else:
+        res.violation("C11:raises:" + r[1], "transform_to_pdp_request raised on a full request (attribute without a table row?)", case)
+
+
 def oracle(ctx, res, n=None, nt=None):
-    cases, rng = _cases(ctx, "oracle", n or ctx.scale(300, 3000))
+    cases, rng = _cases(ctx, "oracle", n or ctx.scale(300, 1500))
+    full_request(res)
     for fn, c in load_corpus():
         res.count("corpus:" + fn)
     for sl in cases:
-        eval_slice(sl, rng, res, "fold", ctx.scale(24, 48))
+        eval_slice(sl, rng, res, "fold", 24)
         eval_slice(sl, rng, res, "dispatch", 4)
     for ts, runs in topo_runs(ctx, nt):
         judge_tspec(ts, runs, res)
@@ -858,7 +951,7 @@ def oracle(ctx, res, n=None, nt=None):
 
 
 def search(ctx, res, broken):
-    oracle(ctx, res, n=ctx.scale(3000, 20000), nt=ctx.scale(60, 400))
+    oracle(ctx, res, n=ctx.scale(800, 6000), nt=ctx.scale(30, 200))
 
 
 def replay(ctx, payload):
@@ -866,7 +959,9 @@ def replay(ctx, payload):
     r = Result()
     c = payload["case"]
     rng = ctx.sub_rng("replay")
-    if c.get("kind") == "topology":
+    if c.get("entry") == "full-request":
+        full_request(r)
+    elif c.get("kind") == "topology":
         ts = c["tspec"]
         for s in ts["svcs"]:
             s["ifs"] = [tuple(x) for x in s["ifs"]]
